@@ -10,3 +10,33 @@ Theorem C20_break_hands_back_everybody :
     find_table id (r_tables (rs_reg st')) = None -> rel = t_pc t0 - out /\ handed = [] /\ o = ROk.
 Proof. exact sync_break_returns_all. Qed.
 Print Assumptions C20_break_hands_back_everybody.
+
+(* in the system of regulator and instruction-following tables (see C09.v): when SyncState removes the
+   table, the number it is told to release is everybody it has left, nobody is handed to it, and all of
+   them are accounted for in transit — ReleasePlayers then puts each of them in the waiting queue or at
+   another table (C09_every_player_in_exactly_one_place) *)
+From Coq Require Import Permutation.
+From PF Require Import ProofsReg.
+Theorem C20_broken_table_releases_everybody :
+  forall st ts transit alive alive' id out m,
+    quiet st -> Sys (rs_reg st) ts transit alive -> 0 < r_max (rs_reg st) ->
+    lookup id ts = Some m -> (out <= length m)%nat -> Permutation alive (firstn out m ++ alive') ->
+    let res := sync_state st id (zn out) in
+    let st1 := fst (fst (fst res)) in
+    find_table id (r_tables (rs_reg st1)) = None ->
+    snd (fst (fst res)) = zn (length (skipn out m)) /\ snd (fst res) = [] /\
+    Sys (rs_reg st1) (remove_table id ts) (transit ++ skipn out m) alive'.
+Proof.
+  intros st ts transit alive alive' id out m Hq HS Hm Hl Ho Hal res st1 Hnone.
+  destruct (Sys_sync st ts transit alive alive' id out m Hq HS Hm Hl Ho Hal) as (_ & _ & H).
+  fold res in H. fold st1 in H. rewrite Hnone in H. exact H.
+Qed.
+Print Assumptions C20_broken_table_releases_everybody.
+
+(* handing players back puts every one of them in the waiting queue or at a table *)
+Theorem C20_released_players_are_placed :
+  forall st ts batch rest alive,
+    quiet st -> Sys (rs_reg st) ts (batch ++ rest) alive ->
+    let st' := release_players st batch in Sys (rs_reg st') (env_of (rs_ev st') ts) rest alive.
+Proof. exact Sys_release. Qed.
+Print Assumptions C20_released_players_are_placed.
